@@ -124,32 +124,48 @@ func (c *concComp) nonces(workers, rounds int) ([]string, string, bool) {
 	s := openStore(c.driver)
 	defer s.Close()
 	base := time.Now().UnixNano()
-	multi := 0
-	none := 0
+	multi, none, regress := 0, 0, 0
 	for r := 0; r < rounds; r++ {
 		var accepted int64
 		var wg sync.WaitGroup
 		start := make(chan struct{})
+		// even rounds: every worker submits the same nonce (racing copies of one request); odd rounds: workers submit
+		// distinct nonces (racing requests of one identity), after which the highest accepted one must be remembered
+		n0 := base + int64(r)*1000
+		var maxAcc int64
 		for w := 0; w < workers; w++ {
 			wg.Add(1)
+			n := n0
+			if r%2 == 1 {
+				n = n0 + int64(w)
+			}
 			go func() {
 				defer wg.Done()
 				<-start
-				if err := s.CheckAndSaveNonce("ident", base+int64(r)); err == nil {
+				if err := s.CheckAndSaveNonce("ident", n); err == nil {
 					atomic.AddInt64(&accepted, 1)
+					for {
+						m := atomic.LoadInt64(&maxAcc)
+						if n <= m || atomic.CompareAndSwapInt64(&maxAcc, m, n) {
+							break
+						}
+					}
 				}
 			}()
 		}
 		close(start)
 		wg.Wait()
-		if accepted > 1 {
+		if r%2 == 0 && accepted > 1 {
 			multi++
 		}
 		if accepted == 0 {
 			none++
 		}
+		if r%2 == 1 && maxAcc > 0 && s.CheckAndSaveNonce("ident", maxAcc) == nil {
+			regress++ // the highest honoured nonce was honoured again: the table moved backwards
+		}
 	}
-	return nil, fmt.Sprintf("ok rounds-with-duplicates=%d rounds-with-none=%d", multi, none), true
+	return nil, fmt.Sprintf("ok rounds-with-duplicates=%d rounds-with-none=%d rounds-with-regress=%d", multi, none, regress), true
 }
 
 // poolRun: hosts and clients registered sequentially; then every client sends one signed keep-alive, hosts send theirs,
@@ -370,7 +386,7 @@ func (c *concComp) gen(r *rand.Rand, idx int, emit func(string), sameNode bool) 
 	case 0, 5:
 		emit(fmt.Sprintf("balances workers=%d each=%d seed=%d", 2+r.Intn(7), 20+r.Intn(60), r.Intn(1000)))
 	case 1, 6:
-		emit(fmt.Sprintf("nonces workers=%d rounds=%d", 2+r.Intn(7), 20+r.Intn(30)))
+		emit(fmt.Sprintf("nonces workers=%d rounds=%d", 6+r.Intn(11), 300+r.Intn(300)))
 	case 2, 8:
 		emit(fmt.Sprintf("pool clients=%d hosts=%d seed=%d", 1+r.Intn(4), 1+r.Intn(4), r.Intn(1000)))
 	case 4:
